@@ -22,13 +22,11 @@ func ScanPngHeader(r io.ReadSeeker) (header meta.ExifHeader, err error) {
 	// This is just a coincidence.
 	buf := make([]byte, 8)
 
-	var n int
-	n, err = r.Read(buf)
-	if err != nil {
+	if _, err = io.ReadFull(r, buf); err != nil {
 		return
 	}
 
-	if n != len(signature) || string(buf) != signature {
+	if string(buf) != signature {
 		err = meta.ErrNoExif
 
 		return
@@ -36,12 +34,7 @@ func ScanPngHeader(r io.ReadSeeker) (header meta.ExifHeader, err error) {
 
 	for {
 		// 5.3 Chunk layout
-		n, err = r.Read(buf)
-		if err != nil {
-			break
-		}
-
-		if n != len(buf) {
+		if _, err = io.ReadFull(r, buf); err != nil {
 			break
 		}
 
@@ -52,7 +45,20 @@ func ScanPngHeader(r io.ReadSeeker) (header meta.ExifHeader, err error) {
 		case "eXIf":
 			offset, _ := r.Seek(0, io.SeekCurrent)
 
-			return meta.NewExifHeader(utils.BigEndian, 8, uint32(offset), length, imagetype.ImagePNG), nil
+			// The chunk data is a TIFF stream: byte order and first IFD
+			// offset are given by its own header, which is left unread.
+			if _, err = io.ReadFull(r, buf); err != nil {
+				return header, meta.ErrNoExif
+			}
+			byteOrder := utils.BinaryOrder(buf)
+			if byteOrder == utils.UnknownEndian {
+				return header, meta.ErrNoExif
+			}
+			if _, err = r.Seek(-int64(len(buf)), io.SeekCurrent); err != nil {
+				return header, err
+			}
+
+			return meta.NewExifHeader(byteOrder, byteOrder.Uint32(buf[4:8]), uint32(offset), length, imagetype.ImagePNG), nil
 
 		default:
 			// Discard the chunk length + CRC.
